@@ -217,6 +217,25 @@ Example C08_instantiate_twice_example :
   inst_guard cfg = true /\ inst_twice false 2 cfg = ([2; 3; 4; 5], [6; 7; 8; 9])%nat.
 Proof. vm_compute. split; reflexivity. Qed.
 
+(* ---- two cooperating declarations: --o with the declared default {'m': 1} (the caller's own dict) and, below it,
+   --o.h with default 2.  get_defaults (any tree) hands out a copy {'m': 1, 'h': 2} and leaves the declared dict alone
+   (an instance of C08_fixed_frame, whose get_defaults now assigns through dotted keys); copying only once at the end
+   instead of per action writes 'h' into the declared dict. *)
+Definition pc_parser : parser :=
+  [{| d_key := [111]%N; d_ty := TDict TInt; d_dflt := VRef 0 |}; {| d_key := [111; 46; 104]%N; d_ty := TInt; d_dflt := VInt 2 |}].
+Definition pc_heap : heap := [CDict [([109]%N, VInt 1)]].
+Example C08_parent_child_defaults :
+  match get_defaults true pc_parser (mkst pc_heap g0) with
+  | Ok r s' => view FUEL 1 (s_h s') r = ONewNs [([111]%N, ONewDict [([109]%N, OInt 1); ([104]%N, OInt 2)])]
+               /\ nth_error (s_h s') 0 = Some (CDict [([109]%N, VInt 1)])
+  | Err _ _ => False
+  end.
+Proof. vm_compute. split; reflexivity. Qed.
+Theorem C08_get_defaults_late_copy_refuted :
+  exists p h0, firstn (length h0) (s_h (out_st (get_defaults_late_copy true p (mkst h0 g0)))) <> h0.
+Proof. exists pc_parser, pc_heap. vm_compute. congruence. Qed.
+Print Assumptions C08_get_defaults_late_copy_refuted.
+
 (* ---- try/finally regions in general: any nesting of regions around any body that leaves the globals
    alone (returning or raising) leaves them alone; in particular the skeletons of parse_args with a
    config file, default_config_files in get_defaults / format_help / parse_args, list files and
